@@ -3,7 +3,7 @@ import ast
 import z3
 from .values import (Ref, NULL, INT, BOOL, STR, sort_of, V, VInt, VBool, VStr,
                      VRef, VNone, NONE, VTuple, VPy, VClass, VExc, VFunc,
-                     VTerm, VEnum, EnumDesc)
+                     VTerm, VEnum, EnumDesc, VAtom, ATOM)
 from .state import Unsupported
 
 TYPE_OF = z3.Function("type_of", Ref, INT)
@@ -35,7 +35,7 @@ def base_tag(tag):
     head, _ = tag_parts(tag)
     if head.startswith("enum:"):
         return "int"
-    return head if head in ("int", "bool", "str") else "ref"
+    return head if head in ("int", "bool", "str", "atom") else "ref"
 
 
 def wrap(e, cls=None, elem=None):
@@ -49,6 +49,8 @@ def wrap(e, cls=None, elem=None):
         return VStr(e)
     if s == Ref:
         return VRef(e, cls, elem)
+    if s == ATOM:
+        return VAtom(e)
     raise Unsupported(f"cannot wrap sort {s}")
 
 
@@ -87,7 +89,7 @@ BUILTIN_NAMES = {"len", "range", "isinstance", "enumerate", "zip", "min",
                  "implies", "ite", "typeis", "fresh", "unchanged", "norm",
                  "card", "dict", "hasattr", "getattr", "sum", "iff",
                  "distinct_upto", "select", "substr", "at",
-                 "unchanged_since_head"}
+                 "unchanged_since_head", "entry", "select_set", "head"}
 
 CONTAINER_METHODS = {"append", "pop", "insert", "extend", "remove", "index",
                      "reverse", "clear", "copy", "add", "discard", "keys",
